@@ -9,6 +9,7 @@ package main
 
 import (
 	"fmt"
+	"github.com/refraction-networking/conjure/pkg/phantoms"
 	"io"
 	"net"
 	"net/netip"
@@ -221,6 +222,11 @@ func main() {
 	sel := vfix.Selector(vfix.SubnetsTOML)
 	cs := coverts()
 	idx := 0
+	if !reloadPass(e, a, sel) {
+		vnet.ResolveHook, vnet.DialHook = nil, nil
+		e.Finish()
+		return
+	}
 	for _, pol := range policies() {
 		ref := mkRef(pol)
 		conf := &lib.RegConfig{EnableIPv4: true, EnableIPv6: true, CovertBlocklistSubnets: pol.block, CovertAllowlistSubnets: pol.allow, CovertBlocklistDomains: pol.domains}
@@ -382,6 +388,136 @@ done:
 	vnet.ResolveHook, vnet.DialHook = nil, nil
 	_ = io.Discard
 	e.Finish()
+}
+
+// reloadPass: the policy in force changes while the station runs (SIGHUP -> ParseConfig -> OnReload, as main() does).
+// For every ordered pair of policies and every covert of a small menu: a registration naming the covert is ingested
+// under the first policy, the second policy is loaded, a second client names the same covert. What the station then
+// admits, stores and dials must be what a station freshly started with the second policy admits, stores and dials,
+// and must pass the independent evaluation of the second policy. Returns false when the case budget ended.
+func reloadPass(e *venum.E, a *vh.Args, sel *phantoms.PhantomIPSelector) bool {
+	pols := policies()
+	menu := []string{"example.com:443", "localhost:443", "internal.example:443", "x.corp:443", "93.184.216.34:443", "10.0.0.1:443", "10.1.2.3:443", "127.0.0.1:443", "[fd12:3456::1]:443", "[::1]:443", "[2606:2800:220:1::1]:443", "8.8.8.8:53"}
+	mkconf := func(pol policy) (*lib.RegConfig, error) {
+		c := &lib.RegConfig{EnableIPv4: true, EnableIPv6: true, CovertBlocklistSubnets: pol.block, CovertAllowlistSubnets: pol.allow, CovertBlocklistDomains: pol.domains}
+		return c, lib.VerifParseBlocklists(c)
+	}
+	idx := 0
+	for _, p1 := range pols {
+		for _, p2 := range pols {
+			if p1.name == p2.name {
+				continue
+			}
+			ref := mkRef(p2)
+			for _, c := range menu {
+				h, _, _ := net.SplitHostPort(c)
+				scripts := resolvers[:1]
+				if net.ParseIP(h) == nil {
+					scripts = resolvers
+				}
+				for _, rs := range scripts {
+					idx++
+					if idx%a.ShardN != a.ShardI {
+						continue
+					}
+					if !e.Case() {
+						return false
+					}
+					id := fmt.Sprintf("reload=%s>%s;covert=%q;resolver=%s", p1.name, p2.name, c, rs.name)
+					calls := 0
+					vnet.ResolveHook = func(network, host string) (*net.IPAddr, error) {
+						ans := "err"
+						if calls < len(rs.answers) {
+							ans = rs.answers[calls]
+						}
+						calls++
+						if ans == "err" {
+							return nil, &net.DNSError{Err: "no such host", Name: host, IsNotFound: true}
+						}
+						zone := ""
+						if i := strings.IndexByte(ans, '%'); i >= 0 {
+							ans, zone = ans[:i], ans[i+1:]
+						}
+						return &net.IPAddr{IP: net.ParseIP(ans), Zone: zone}, nil
+					}
+					var dialed []string
+					vnet.DialHook = func(network, address string) (net.Conn, error) {
+						dialed = append(dialed, address)
+						return nil, &net.OpError{Op: "dial", Net: network, Err: syscall.ECONNREFUSED}
+					}
+					conf1, err1 := mkconf(p1)
+					conf2, err2 := mkconf(p2)
+					confF, _ := mkconf(p2)
+					if err1 != nil || err2 != nil {
+						continue // a configuration that does not load is never started with / reloaded (C19's business)
+					}
+					// ingest one registration; reports whether it became usable, what it holds and what the relay dials
+					ingest := func(rm *lib.RegistrationManager, secret int, relay bool) (admitted bool, stored string) {
+						calls = 0
+						m := vfix.Msg{Secret: vfix.Secret(secret), Transport: pb.TransportType_Min, V4: true, Gen: 1, LibVer: 4, Covert: c, Source: pb.RegistrationSource_API, Addr: []byte{203, 0, 113, 7}}
+						regs, err := rm.VerifParseRegMessage(m.Bytes())
+						if err != nil || len(regs) != 1 {
+							return false, ""
+						}
+						rm.VerifIngest(regs[0])
+						if _, ok := rm.GetRegistrations(regs[0].PhantomIp)[rm.VerifIdentifier(regs[0])]; ok {
+							if relay {
+								lib.Proxy(regs[0], nopConn{}, lib.VerifQuietLogger())
+							}
+							return true, regs[0].Covert
+						}
+						return false, ""
+					}
+					var admB, admF bool
+					var stB, stF string
+					if p, msg, site := venum.Guard(func() {
+						rm := vfix.Manager(conf1, sel, &vfix.Tester{}, vfix.Transports{Min: true}, nil)
+						ingest(rm, 3, false)
+						rm.OnReload(conf2)
+						dialed = dialed[:0]
+						admB, stB = ingest(rm, 4, true)
+					}); p {
+						e.Violation("panic:"+site, msg+" "+id, map[string]any{"case": id})
+						continue
+					}
+					dialedB := append([]string{}, dialed...)
+					if p, msg, site := venum.Guard(func() {
+						rmF := vfix.Manager(confF, sel, &vfix.Tester{}, vfix.Transports{Min: true}, nil)
+						admF, stF = ingest(rmF, 4, false)
+					}); p {
+						e.Violation("panic:"+site, msg+" "+id, map[string]any{"case": id})
+						continue
+					}
+					if admB != admF || stB != stF {
+						e.Violation("after-reload-differs-from-fresh-start", fmt.Sprintf("%s: after the reload admitted=%v covert=%q; a station started with the second policy admitted=%v covert=%q", id, admB, stB, admF, stF), map[string]any{"case": id})
+					}
+					if !admB {
+						if len(dialedB) > 0 {
+							e.Violation("dial-without-admission", id, map[string]any{"case": id})
+						}
+						continue
+					}
+					e.Nontrivial(id)
+					if len(dialedB) != 1 || dialedB[0] != stB {
+						e.Violation("dialed-differs-from-checked", fmt.Sprintf("%s: registration holds %q, relay dialed %q", id, stB, dialedB), map[string]any{"case": id})
+						continue
+					}
+					ap, err := netip.ParseAddrPort(dialedB[0])
+					if err != nil {
+						e.Violation("dialed-not-literal", fmt.Sprintf("%s: dialed %q: %v", id, dialedB[0], err), map[string]any{"case": id})
+						continue
+					}
+					if bad, why := ref.forbidden(ap.Addr()); bad {
+						e.Violation("forbidden-address-dialed:after-reload", fmt.Sprintf("%s: dialed %s which the policy now in force forbids: %s", id, dialedB[0], why), map[string]any{"case": id})
+					}
+					if matchAny(ref.domains, h) {
+						e.Violation("blocklisted-domain-dialed:after-reload", fmt.Sprintf("%s: host %q matches a pattern of the policy now in force", id, h), map[string]any{"case": id})
+					}
+				}
+			}
+		}
+	}
+	return true
 }
 
 func matchAny(rs []*regexp.Regexp, s string) bool {
